@@ -147,7 +147,9 @@ Lemma x2_vdelta_nz_rt it base v lead trail :
                = Some (v, v, l', t', r)) /\
     win_rel (snd (fst (x2_write_vdelta_nz (Z.lxor v base) lead trail)))
             (snd (x2_write_vdelta_nz (Z.lxor v base) lead trail)) l' t' /\
-    wf_window l' t'.
+    wf_window l' t' /\
+    (snd (fst (x2_write_vdelta_nz (Z.lxor v base) lead trail)) = 255 ->
+       lead = 255 /\ l' = j_lead it /\ t' = j_trail it).
 Proof.
   intros Hb Hv Hne Hbase Hrel Hwf.
   pose proof (lxor_u64 v base Hv Hb) as Hd.
@@ -158,7 +160,7 @@ Proof.
   destruct (x2_window_spec delta lead trail _ _ Hd' Hrel Hwf) as [Hw [Hl [Ht Hre]]].
   unfold x2_write_vdelta_nz.
   destruct (x2_window delta lead trail) as [[reuse l] t] eqn:Hwin. cbn [fst snd] in *.
-  exists l, t. split; [|split; [right; split; reflexivity|exact Hw]].
+  exists l, t. split; [|split; [right; split; reflexivity|split; [exact Hw|destruct Hw as [Hw' _]; intros Hc; lia]]].
   intros r. unfold x2_decode_value_nz, x2_window_bits. destruct reuse.
   - destruct (Hre eq_refl) as [El Et]. cbn [app get_bit]. unfold x2_read_reuse.
     rewrite <- El, <- Et, Hbase. rewrite read_reuse_rt by assumption.
@@ -178,22 +180,23 @@ Lemma x2_vdelta_rt it base v lead trail :
     (forall r, x2_decode_value it (fst (fst (x2_write_vdelta base v lead trail)) ++ r)
                = Some (v, newbase base v, l', t', r)) /\
     win_rel (snd (fst (x2_write_vdelta base v lead trail))) (snd (x2_write_vdelta base v lead trail)) l' t' /\
-    wf_window l' t'.
+    wf_window l' t' /\
+    (snd (fst (x2_write_vdelta base v lead trail)) = 255 -> lead = 255 /\ l' = j_lead it /\ t' = j_trail it).
 Proof.
   intros Hb Hv Hbase Hrel Hwf. unfold x2_write_vdelta, newbase.
   destruct (is_stale v) eqn:Hst.
   { apply is_stale_true in Hst. subst v. exists (j_lead it), (j_trail it). cbn [fst snd].
-    split; [|split; assumption]. intros r. unfold x2_decode_value. cbn [app get_bit]. rewrite Hbase. reflexivity. }
+    split; [|split; [assumption|split; [assumption|intros Hc; auto]]]. intros r. unfold x2_decode_value. cbn [app get_bit]. rewrite Hbase. reflexivity. }
   destruct (Z.eqb_spec (Z.lxor v base) 0) as [Hz|Hnz].
   { apply Z.lxor_eq in Hz. subst v. exists (j_lead it), (j_trail it). cbn [fst snd].
-    split; [|split; assumption]. intros r. unfold x2_decode_value. cbn [app get_bit]. rewrite Hbase. reflexivity. }
+    split; [|split; [assumption|split; [assumption|intros Hc; auto]]]. intros r. unfold x2_decode_value. cbn [app get_bit]. rewrite Hbase. reflexivity. }
   pose proof (lxor_u64 v base Hv Hb) as Hd.
   assert (Hd' : 0 < Z.lxor v base < 2 ^ 64).
   { unfold is_u64 in Hd. change (2 ^ 64) with 18446744073709551616. lia. }
   set (delta := Z.lxor v base) in *.
   destruct (x2_window_spec delta lead trail _ _ Hd' Hrel Hwf) as [Hw [Hl [Ht Hre]]].
   destruct (x2_window delta lead trail) as [[reuse l] t] eqn:Hwin. cbn [fst snd] in *.
-  exists l, t. split; [|split; [right; split; reflexivity|exact Hw]].
+  exists l, t. split; [|split; [right; split; reflexivity|split; [exact Hw|destruct Hw as [Hw' _]; intros Hc; lia]]].
   intros r. unfold x2_decode_value, x2_window_bits. destruct reuse.
   - destruct (Hre eq_refl) as [El Et]. cbn [app get_bit]. unfold x2_read_reuse.
     rewrite <- El, <- Et, Hbase. rewrite read_reuse_rt by assumption.
@@ -235,7 +238,8 @@ Lemma x2_joint_rt it base v lead trail t :
     (forall r, x2_read_joint it (fst (fst (x2_encode_joint dod base v lead trail)) ++ r)
                = Some (tD, t, v, newbase base v, l', t', r)) /\
     win_rel (snd (fst (x2_encode_joint dod base v lead trail))) (snd (x2_encode_joint dod base v lead trail)) l' t' /\
-    wf_window l' t'.
+    wf_window l' t' /\
+    (snd (fst (x2_encode_joint dod base v lead trail)) = 255 -> lead = 255 /\ l' = j_lead it /\ t' = j_trail it).
 Proof.
   intros Ht0 Ht Htd Hb Hv Hbase Hrel Hwf tD dod EtD Edod.
   assert (HtD : is_u64 tD) by (rewrite EtD; apply U64_range).
@@ -250,31 +254,31 @@ Proof.
     { rewrite H0, Z.add_0_r in Hrt. rewrite U64_W64 in Hrt by exact Htd. congruence. }
     destruct (is_stale v) eqn:Hst.
     { apply is_stale_true in Hst. exists (j_lead it), (j_trail it). cbn [fst snd].
-      split; [|split; assumption]. intros r. unfold x2_read_joint. cbn [app read_ones Z.eqb Z.add Pos.add Pos.succ].
+      split; [|split; [assumption|split; [assumption|intros Hc; auto]]]. intros r. unfold x2_read_joint. cbn [app read_ones Z.eqb Z.add Pos.add Pos.succ].
       rewrite <- HtD0, Htt. unfold newbase. subst v. cbn. rewrite Hbase. reflexivity. }
     destruct (Z.eqb_spec (Z.lxor v base) 0) as [Hz|Hnz].
     { apply Z.lxor_eq in Hz. exists (j_lead it), (j_trail it). cbn [fst snd].
-      split; [|split; assumption]. intros r. unfold x2_read_joint. cbn [app read_ones Z.eqb].
+      split; [|split; [assumption|split; [assumption|intros Hc; auto]]]. intros r. unfold x2_read_joint. cbn [app read_ones Z.eqb].
       rewrite <- HtD0, Htt. unfold newbase. rewrite Hst, Hbase, Hz. reflexivity. }
     assert (Hne : v <> base) by (intros Hc; apply Hnz; rewrite Hc; apply Z.lxor_nilpotent).
-    destruct (x2_vdelta_nz_rt it base v lead trail Hb Hv Hne Hbase Hrel Hwf) as [l' [t' [Hrd [Hrel' Hwf']]]].
+    destruct (x2_vdelta_nz_rt it base v lead trail Hb Hv Hne Hbase Hrel Hwf) as [l' [t' [Hrd [Hrel' [Hwf' Hdet]]]]].
     destruct (x2_write_vdelta_nz (Z.lxor v base) lead trail) as [[b l] tr] eqn:Hw. cbn [fst snd] in *.
-    exists l', t'. split; [|split; assumption]. intros r. unfold x2_read_joint.
+    exists l', t'. split; [|split; [assumption|split; [assumption|exact Hdet]]]. intros r. unfold x2_read_joint.
     cbn [app read_ones Z.eqb Z.add Pos.add Pos.succ]. rewrite Hrd.
     rewrite <- HtD0, Htt. unfold newbase. rewrite Hst. reflexivity. }
   (* dod <> 0 *)
   assert (Hvalue : exists l' t' vb lw tw,
     (if v =? base then ([false], lead, trail) else x2_write_vdelta base v lead trail) = (vb, lw, tw) /\
     (forall r, x2_decode_value it (vb ++ r) = Some (v, newbase base v, l', t', r)) /\
-    win_rel lw tw l' t' /\ wf_window l' t').
+    win_rel lw tw l' t' /\ wf_window l' t' /\ (lw = 255 -> lead = 255 /\ l' = j_lead it /\ t' = j_trail it)).
   { destruct (Z.eqb_spec v base) as [He|Hne].
-    - exists (j_lead it), (j_trail it), [false], lead, trail. split; [reflexivity|]. split; [|split; assumption].
+    - exists (j_lead it), (j_trail it), [false], lead, trail. split; [reflexivity|]. split; [|split; [assumption|split; [assumption|intros Hc; auto]]].
       intros r. unfold x2_decode_value. cbn [app get_bit]. rewrite Hbase. unfold newbase. rewrite He.
       destruct (is_stale base); reflexivity.
-    - destruct (x2_vdelta_rt it base v lead trail Hb Hv Hbase Hrel Hwf) as [l' [t' [Hrd [Hrel' Hwf']]]].
+    - destruct (x2_vdelta_rt it base v lead trail Hb Hv Hbase Hrel Hwf) as [l' [t' [Hrd [Hrel' [Hwf' Hdet]]]]].
       destruct (x2_write_vdelta base v lead trail) as [[vb lw] tw]. cbn [fst snd] in *.
-      exists l', t', vb, lw, tw. split; [reflexivity|]. split; [exact Hrd|]. split; assumption. }
-  destruct Hvalue as [l' [t' [vb [lw [tw [Hveq [Hvrd [Hvrel Hvwf]]]]]]]].
+      exists l', t', vb, lw, tw. split; [reflexivity|]. split; [exact Hrd|]. split; [assumption|split; assumption]. }
+  destruct Hvalue as [l' [t' [vb [lw [tw [Hveq [Hvrd [Hvrel [Hvwf Hvdet]]]]]]]]].
   assert (Hshape : forall tb, 
      (if v =? base then (tb ++ [false], lead, trail)
       else let '(b, l, t0) := x2_write_vdelta base v lead trail in (tb ++ b, l, t0)) = (tb ++ vb, lw, tw)).
@@ -282,7 +286,7 @@ Proof.
     - injection Hveq as E1 E2 E3. subst. reflexivity.
     - rewrite Hveq. reflexivity. }
   rewrite Hshape. cbn [fst snd].
-  exists l', t'. split; [|split; assumption]. intros r. unfold x2_read_joint.
+  exists l', t'. split; [|split; [assumption|split; assumption]]. intros r. unfold x2_read_joint.
   destruct ((-4096 <=? dod) && (dod <=? 4095)) eqn:H13.
   { apply andb_true_iff in H13. destruct H13 as [Ha Hb']. apply Z.leb_le in Ha, Hb'.
     cbn [app read_ones Z.eqb Z.add Pos.add Pos.succ]. unfold x2_read_dod.
@@ -370,4 +374,464 @@ Proof.
   rewrite Hfs in *. subst hdr. destruct (b_fsk a); cbn [Z.add].
   - rewrite lor128 by lia. repeat split; try lia; auto.
   - rewrite Z.lor_0_l. repeat split; try lia; auto.
+Qed.
+
+(* ---- one Append against one Next (XOR2) ---------------------------------------------------------- *)
+
+Lemma st_rt t st : int64 t -> int64 st -> W64 (t - W64 (t - st)) = st.
+Proof.
+  rewrite !int64_unfold. intros H1 H2. rewrite !W64_eq. unfold wrap64, two64. Z.div_mod_to_equations. lia.
+Qed.
+
+Lemma stdiff_rt sd0 nsd : int64 sd0 -> int64 nsd -> W64 (sd0 + W64 (nsd - sd0)) = nsd.
+Proof.
+  rewrite !int64_unfold. intros H1 H2. rewrite !W64_eq. unfold wrap64, two64. Z.div_mod_to_equations. lia.
+Qed.
+
+Definition wf_sample2 (s : sample) : Prop := int64 (s_st s) /\ int64 (s_t s) /\ is_u64 (s_v s).
+
+Definition wf_it2 (it : x2it) : Prop :=
+  int64 (j_st it) /\ int64 (j_t it) /\ is_u64 (j_base it) /\ is_u64 (j_tDelta it) /\ int64 (j_stDiff it) /\
+  wf_window (j_lead it) (j_trail it).
+
+(* simulation relation: appender [a] on a chunk with b_num a samples, iterator [it] that has read
+   exactly those samples but was created over the FINAL chunk, i.e. knows the final header
+   (the header of the final appender state aF) *)
+Definition Inv2 (aF a : x2app) (it : x2it) : Prop :=
+  j_num it = b_num a /\ b_st a = j_st it /\ (1 <= b_num a -> b_t a = j_t it) /\ b_v a = j_base it /\
+  b_tDelta a = j_tDelta it /\ b_stDiff a = j_stDiff it /\
+  win_rel (b_lead a) (b_trail a) (j_lead it) (j_trail it) /\ wf_it2 it /\
+  j_fsk it = b_fsk aF /\ j_fsco it = b_fsco aF /\
+  (b_num a = 0 -> j_tDelta it = 0 /\ j_st it = 0) /\ (b_num a <= 1 -> j_stDiff it = 0) /\
+  (b_lead a = 255 -> j_lead it = 0 /\ j_trail it = 0).
+
+Lemma newbase_u64 base v : is_u64 base -> is_u64 v -> is_u64 (newbase base v).
+Proof. intros. unfold newbase. destruct (is_stale v); assumption. Qed.
+
+Lemma put_uvarint_nonempty x : put_uvarint x <> [].
+Proof. unfold put_uvarint. cbn [uvarint_bytes]. destruct (x <? 128); discriminate. Qed.
+
+Lemma bytes_bits_nonempty l r : l <> [] -> bytes_bits l ++ r <> [].
+Proof.
+  destruct l as [|b l]; [congruence|]. intros _. rewrite bytes_bits_cons.
+  Transparent put_bits. cbn [put_bits app]. discriminate.
+Qed.
+
+Opaque put_bits get_bits.
+
+Ltac fin2 :=
+  first [ assumption | reflexivity | lia | apply U64_range | apply W64_range
+        | (apply newbase_u64; assumption)
+        | (unfold is_u64, int64, minInt64, maxInt64 in *; lia)
+        | (left; reflexivity) | (intros; reflexivity) ].
+
+Lemma x2_step aF a hdr it st t v b a' hdr' :
+  Inv2 aF a it -> HdrInv a hdr -> int64 st -> int64 t -> is_u64 v ->
+  x2_append a hdr st t v = Some (b, a', hdr') -> Fut a' aF ->
+  exists it', (forall r, x2_next it (b ++ r) = Some (it', r)) /\ Inv2 aF a' it' /\
+              j_st it' = st /\ j_t it' = t /\ j_v it' = v /\ b <> [].
+Proof.
+  intros [Hnum [Hst [Ht [Hv [Htd [Hsd [Hwin [[Wst [Wt [Wb [Wtd [Wsd Www]]]]] [Hfk [Hfc [Hz0 [Hz1 Hwin0]]]]]]]]]]]]
+         HH Hst64 Ht64 Hv64 Happ HF.
+  pose proof (x2_append_hdr _ _ _ _ _ _ _ _ HH Happ) as [HH' [HFa Hn']].
+  destruct HH as [Hh [Hf [Hf0 [Hf1 [Hk0 Hn0]]]]].
+  destruct HF as [F1 [F2 [F3 F4]]].
+  unfold x2_append in Happ.
+  destruct (Z.eqb_spec (b_num a) 0) as [E0|N0].
+  { (* sample 0 *)
+    destruct (Hz0 E0) as [Htd0 Hst0].
+    destruct (Z.eqb_spec st 0) as [S0|SN].
+    - cbv beta zeta iota in Happ. injection Happ as Hb Ha Hhd. subst b a' hdr'. cbn in F1, F2, F3, F4, Hn'.
+      exists (mkI2 1 (j_fsk it) (j_fsco it) (j_lead it) (j_trail it) (j_st it) t v (j_tDelta it) (j_stDiff it)
+                   (newbase (j_base it) v)). split.
+      { intros r. unfold x2_next. rewrite Hnum, E0. cbn [Z.eqb]. rewrite app_nil_r, <- app_assoc.
+        rewrite varint_rt by exact Ht64. rewrite get_put_nat. change (2 ^ Z.of_nat 64) with 18446744073709551616.
+        rewrite Z.mod_small by exact Hv64. rewrite Hfk, (F2 ltac:(lia)), (Hk0 E0). reflexivity. }
+      split; [|split; [cbn; lia|split; [reflexivity|split; [reflexivity|]]]].
+      + destruct Www as [Hw1 [Hw2 Hw3]]. unfold Inv2, wf_it2, wf_window, newbase. cbn. rewrite <- Hv.
+        rewrite Htd0, (Hz1 ltac:(lia)).
+        rewrite <- Hv in Wb. repeat split; try fin2. all: destruct (is_stale v); fin2.
+      + rewrite app_nil_r. apply bytes_bits_nonempty. unfold put_varint. apply put_uvarint_nonempty.
+    - cbv beta zeta iota in Happ. injection Happ as Hb Ha Hhd. subst b a' hdr'. cbn in F1, F2, F3, F4, Hn'.
+      exists (mkI2 1 (j_fsk it) (j_fsco it) (j_lead it) (j_trail it) st t v (j_tDelta it) (j_stDiff it)
+                   (newbase (j_base it) v)). split.
+      { intros r. unfold x2_next. rewrite Hnum, E0. cbn [Z.eqb]. rewrite <- !app_assoc.
+        rewrite varint_rt by exact Ht64. rewrite get_put_nat. change (2 ^ Z.of_nat 64) with 18446744073709551616.
+        rewrite Z.mod_small by exact Hv64. rewrite Hfk, (F2 ltac:(lia)).
+        rewrite varint_rt by apply W64_range. rewrite st_rt by assumption. reflexivity. }
+      split; [|split; [reflexivity|split; [reflexivity|split; [reflexivity|]]]].
+      + destruct Www as [Hw1 [Hw2 Hw3]]. unfold Inv2, wf_it2, wf_window, newbase. cbn. rewrite <- Hv.
+        rewrite Htd0, (Hz1 ltac:(lia)).
+        rewrite <- Hv in Wb. repeat split; try fin2. all: destruct (is_stale v); fin2.
+      + apply bytes_bits_nonempty. unfold put_varint. apply put_uvarint_nonempty. }
+  assert (Ht' := Ht ltac:(lia)). clear Ht. rename Ht' into Ht.
+  destruct (Z.eqb_spec (b_num a) 1) as [E1|N1].
+  { (* sample 1 *)
+    assert (Hfs : b_fsco a = 0) by lia.
+    destruct (x2_vdelta_rt it (b_v a) v (b_lead a) (b_trail a) ltac:(rewrite Hv; exact Wb) Hv64 (eq_sym Hv) Hwin Www)
+      as [l' [t' [Hrd [Hrel' [Hwf' Hdet]]]]].
+    destruct (x2_write_vdelta (b_v a) v (b_lead a) (b_trail a)) as [[vb l] tr]. cbn [fst snd] in *.
+    destruct (Z.eqb_spec st (b_st a)) as [SE|SN].
+    - cbv beta zeta iota in Happ. injection Happ as Hb Ha Hhd. subst b a' hdr'. cbn in F1, F2, F3, F4, Hn'.
+      exists (mkI2 2 (j_fsk it) (j_fsco it) l' t' (j_st it) t v (U64 (t - b_t a)) (j_stDiff it) (newbase (b_v a) v)). split.
+      { intros r. unfold x2_next. rewrite Hnum, E1. cbn [Z.eqb]. rewrite <- !app_assoc.
+        rewrite uvarint_rt by apply U64_range. rewrite Hrd.
+        replace (j_fsco it =? 1) with false by (symmetry; apply Z.eqb_neq; rewrite Hfc; destruct (F4 Hfs); lia).
+        rewrite <- Ht. rewrite ts_delta_rt by (try assumption; rewrite Ht; assumption). reflexivity. }
+      split; [|split; [cbn; lia|split; [reflexivity|split; [reflexivity|]]]].
+      + destruct Hwf' as [Hw1 [Hw2 Hw3]]. unfold Inv2, wf_it2, wf_window. cbn.
+        rewrite (Hz1 ltac:(lia)). rewrite Hv in *.
+        repeat split; try fin2; try (intros Hc; destruct (Hdet Hc) as [A [B C]]; destruct (Hwin0 A) as [D E]; lia).
+      + apply bytes_bits_nonempty. apply put_uvarint_nonempty.
+    - cbv beta zeta iota in Happ. injection Happ as Hb Ha Hhd. subst b a' hdr'. cbn in F1, F2, F3, F4, Hn'.
+      exists (mkI2 2 (j_fsk it) (j_fsco it) l' t' st t v (U64 (t - b_t a)) (W64 (b_t a - st)) (newbase (b_v a) v)). split.
+      { intros r. unfold x2_next. rewrite Hnum, E1. cbn [Z.eqb]. rewrite <- !app_assoc.
+        rewrite uvarint_rt by apply U64_range. rewrite Hrd.
+        replace (j_fsco it =? 1) with true by (symmetry; apply Z.eqb_eq; rewrite Hfc; apply F3; lia).
+        rewrite varbit_rt by apply W64_range.
+        rewrite <- Ht. rewrite st_rt by (try assumption; rewrite Ht; assumption).
+        rewrite ts_delta_rt by (try assumption; rewrite Ht; assumption). reflexivity. }
+      split; [|split; [reflexivity|split; [reflexivity|split; [reflexivity|]]]].
+      + destruct Hwf' as [Hw1 [Hw2 Hw3]]. unfold Inv2, wf_it2, wf_window. cbn. rewrite Hv in *.
+        repeat split; try fin2; try (intros Hc; destruct (Hdet Hc) as [A [B C]]; destruct (Hwin0 A) as [D E]; lia).
+      + apply bytes_bits_nonempty. apply put_uvarint_nonempty. }
+  destruct (Z.eqb_spec (b_num a) 65535) as [E2|N2]; [discriminate|].
+  (* samples >= 2 *)
+  destruct (x2_joint_rt it (b_v a) v (b_lead a) (b_trail a) t Wt Ht64 Wtd ltac:(rewrite Hv; exact Wb) Hv64
+              (eq_sym Hv) Hwin Www (U64 (t - b_t a)) (W64 (U64 (t - b_t a) - b_tDelta a))
+              ltac:(rewrite Ht; reflexivity) ltac:(rewrite Htd; reflexivity))
+    as [l' [t' [Hrd [Hrel' [Hwf' Hdet]]]]].
+  destruct (x2_encode_joint (W64 (U64 (t - b_t a) - b_tDelta a)) (b_v a) v (b_lead a) (b_trail a)) as [[jb l] tr].
+  cbn [fst snd] in *.
+  assert (Hjne : jb <> []).
+  { intros Hc. subst jb. specialize (Hrd []). cbn [app] in Hrd. unfold x2_read_joint in Hrd. cbn in Hrd. discriminate. }
+  destruct Hwf' as [Hw1 [Hw2 Hw3]].
+  destruct ((b_fsco a =? 0) && (st =? b_st a) && negb (b_num a =? 127)) eqn:HA.
+  { apply andb_true_iff in HA. destruct HA as [HA1 HA3]. apply andb_true_iff in HA1. destruct HA1 as [HA1 HA2].
+    apply Z.eqb_eq in HA1, HA2. apply negb_true_iff, Z.eqb_neq in HA3.
+    injection Happ as Hb Ha Hhd. subst b a' hdr'. cbn in F1, F2, F3, F4, Hn'.
+    exists (mkI2 (j_num it + 1) (j_fsk it) (j_fsco it) l' t' (j_st it) t v (U64 (t - b_t a)) (j_stDiff it) (newbase (b_v a) v)).
+    split.
+    { intros r. unfold x2_next. rewrite Hnum.
+      replace (b_num a =? 0) with false by (symmetry; apply Z.eqb_neq; exact N0).
+      replace (b_num a =? 1) with false by (symmetry; apply Z.eqb_neq; exact N1).
+      rewrite Hrd. unfold x2_read_st. rewrite Hnum, Hfc.
+      replace ((0 <? b_fsco aF) && (b_fsco aF <=? b_num a)) with false; [reflexivity|].
+      symmetry. destruct (F4 HA1) as [G|G]; [rewrite G; reflexivity|].
+      apply andb_false_iff. right. apply Z.leb_gt. lia. }
+    split; [|split; [cbn; lia|split; [reflexivity|split; [reflexivity|exact Hjne]]]].
+    unfold Inv2, wf_it2, wf_window. cbn. rewrite Hv in *.
+    repeat split; try fin2; try (intros Hc; destruct (Hdet Hc) as [A [B C]]; destruct (Hwin0 A) as [D E]; lia). }
+  destruct (Z.ltb_spec 0 (b_fsco a)) as [HB|HC].
+  { injection Happ as Hb Ha Hhd. subst b a' hdr'. cbn in F1, F2, F3, F4, Hn'.
+    exists (mkI2 (j_num it + 1) (j_fsk it) (j_fsco it) l' t' st t v (U64 (t - b_t a)) (W64 (b_t a - st)) (newbase (b_v a) v)).
+    split.
+    { intros r. unfold x2_next. rewrite Hnum.
+      replace (b_num a =? 0) with false by (symmetry; apply Z.eqb_neq; exact N0).
+      replace (b_num a =? 1) with false by (symmetry; apply Z.eqb_neq; exact N1).
+      rewrite <- app_assoc, Hrd. unfold x2_read_st. rewrite Hnum, Hfc, (F3 HB).
+      replace ((0 <? b_fsco a) && (b_fsco a <=? b_num a)) with true
+        by (symmetry; apply andb_true_iff; split; [apply Z.ltb_lt|apply Z.leb_le]; lia).
+      rewrite varbit_rt by apply W64_range.
+      replace (b_num a =? b_fsco a) with false by (symmetry; apply Z.eqb_neq; specialize (Hf1 HB); lia).
+      rewrite <- Hsd. rewrite stdiff_rt by (try apply W64_range; rewrite Hsd; exact Wsd).
+      rewrite <- Ht. rewrite st_rt by (try assumption; rewrite Ht; assumption). reflexivity. }
+    split; [|split; [reflexivity|split; [reflexivity|split; [reflexivity|]]]].
+    - unfold Inv2, wf_it2, wf_window. cbn. rewrite Hv in *.
+      repeat split; try fin2; try (intros Hc; destruct (Hdet Hc) as [A [B C]]; destruct (Hwin0 A) as [D E]; lia).
+    - intros Hc. apply app_eq_nil in Hc. destruct Hc as [Hc _]. exact (Hjne Hc). }
+  assert (Hfs : b_fsco a = 0) by lia.
+  injection Happ as Hb Ha Hhd. subst b a' hdr'. cbn in F1, F2, F3, F4, Hn'.
+  exists (mkI2 (j_num it + 1) (j_fsk it) (j_fsco it) l' t' st t v (U64 (t - b_t a)) (W64 (b_t a - st)) (newbase (b_v a) v)).
+  split.
+  { intros r. unfold x2_next. rewrite Hnum.
+    replace (b_num a =? 0) with false by (symmetry; apply Z.eqb_neq; exact N0).
+    replace (b_num a =? 1) with false by (symmetry; apply Z.eqb_neq; exact N1).
+    rewrite <- app_assoc, Hrd. unfold x2_read_st. rewrite Hnum, Hfc, (F3 ltac:(lia)).
+    replace ((0 <? b_num a) && (b_num a <=? b_num a)) with true
+      by (symmetry; apply andb_true_iff; split; [apply Z.ltb_lt|apply Z.leb_le]; lia).
+    rewrite varbit_rt by apply W64_range. rewrite Z.eqb_refl.
+    rewrite <- Ht. rewrite st_rt by (try assumption; rewrite Ht; assumption). reflexivity. }
+  split; [|split; [reflexivity|split; [reflexivity|split; [reflexivity|]]]].
+  - unfold Inv2, wf_it2, wf_window. cbn. rewrite Hv in *.
+    repeat split; try fin2; try (intros Hc; destruct (Hdet Hc) as [A [B C]]; destruct (Hwin0 A) as [D E]; lia).
+  - intros Hc. apply app_eq_nil in Hc. destruct Hc as [Hc _]. exact (Hjne Hc).
+Qed.
+
+(* ---- runs of appends against runs of Next (XOR2) ------------------------------------------------- *)
+
+Lemma x2_append_all_hdr : forall ss a hdr bs aF hdrF,
+  HdrInv a hdr -> x2_append_all a hdr ss = Some (bs, aF, hdrF) ->
+  HdrInv aF hdrF /\ Fut a aF /\ b_num aF = b_num a + Z.of_nat (length ss).
+Proof.
+  induction ss as [|s ss IH]; intros a hdr bs aF hdrF HH Hall.
+  - cbn in Hall. injection Hall as E1 E2 E3. subst. split; [exact HH|]. split; [apply Fut_refl|]. cbn. lia.
+  - cbn [x2_append_all] in Hall.
+    destruct (x2_append a hdr (s_st s) (s_t s) (s_v s)) as [[[b a'] hdr']|] eqn:Happ; [|discriminate].
+    destruct (x2_append_all a' hdr' ss) as [[[b2 a2] hdr2]|] eqn:Hrest; [|discriminate].
+    injection Hall as E1 E2 E3. subst.
+    destruct (x2_append_hdr _ _ _ _ _ _ _ _ HH Happ) as [HH' [HF1 Hn1]].
+    destruct (IH _ _ _ _ _ HH' Hrest) as [HH2 [HF2 Hn2]].
+    split; [exact HH2|]. split.
+    + eapply Fut_trans; [exact HF1|exact HF2|]. destruct HH' as [_ [Hf _]]. lia.
+    + cbn [length]. rewrite Nat2Z.inj_succ. lia.
+Qed.
+
+Lemma sample_eta s : mkS (s_st s) (s_t s) (s_v s) = s.
+Proof. destruct s. reflexivity. Qed.
+
+Lemma x2_run_rt : forall ss a hdr it bs aF hdrF aEnd,
+  Inv2 aEnd a it -> HdrInv a hdr -> Forall wf_sample2 ss ->
+  x2_append_all a hdr ss = Some (bs, aF, hdrF) -> Fut aF aEnd ->
+  exists it2, (forall r, x2_iter (length ss) it (bs ++ r) = (ss, Some (it2, r))) /\ Inv2 aEnd aF it2 /\
+              (ss <> [] -> bs <> []).
+Proof.
+  induction ss as [|s ss IH]; intros a hdr it bs aF hdrF aEnd HI HH Hwf Hall HFut.
+  - cbn in Hall. injection Hall as E1 E2 E3. subst. exists it. split; [intros r; reflexivity|]. split; [exact HI|auto].
+  - cbn [x2_append_all] in Hall.
+    destruct (x2_append a hdr (s_st s) (s_t s) (s_v s)) as [[[b a'] hdr']|] eqn:Happ; [|discriminate].
+    destruct (x2_append_all a' hdr' ss) as [[[b2 a2] hdr2]|] eqn:Hrest; [|discriminate].
+    injection Hall as E1 E2 E3. subst.
+    inversion Hwf as [|? ? [Hs1 [Hs2 Hs3]] Hwf']; subst.
+    destruct (x2_append_hdr _ _ _ _ _ _ _ _ HH Happ) as [HH' [HF1 Hn1]].
+    destruct (x2_append_all_hdr _ _ _ _ _ _ HH' Hrest) as [HH2 [HF2 Hn2]].
+    assert (HFut' : Fut a' aEnd).
+    { eapply Fut_trans; [exact HF2|exact HFut|]. destruct HH2 as [_ [Hf _]]. lia. }
+    destruct (x2_step aEnd a hdr it (s_st s) (s_t s) (s_v s) b a' hdr' HI HH Hs1 Hs2 Hs3 Happ HFut')
+      as [it' [Hnx [HI' [E1 [E2 [E3 Hne]]]]]].
+    destruct (IH a' hdr' it' b2 aF hdrF aEnd HI' HH' Hwf' Hrest HFut) as [it2 [Hit [HI2 _]]].
+    exists it2. split; [|split; [exact HI2|]].
+    + intros r. cbn [length x2_iter]. rewrite <- app_assoc, Hnx, Hit, E1, E2, E3, sample_eta. reflexivity.
+    + intros _ Hc. apply app_eq_nil in Hc. destruct Hc as [Hc _]. exact (Hne Hc).
+Qed.
+
+Lemma x2_append_total a hdr st t v : 0 <= b_num a < 65535 -> x2_append a hdr st t v <> None.
+Proof.
+  intros H. unfold x2_append.
+  destruct (b_num a =? 0); [discriminate|]. destruct (b_num a =? 1).
+  { destruct (x2_write_vdelta (b_v a) v (b_lead a) (b_trail a)) as [[? ?] ?]. destruct (st =? b_st a); discriminate. }
+  destruct (Z.eqb_spec (b_num a) 65535); [lia|].
+  destruct (x2_encode_joint _ _ _ _ _) as [[? ?] ?].
+  destruct ((b_fsco a =? 0) && (st =? b_st a) && negb (b_num a =? 127)); [discriminate|].
+  destruct (0 <? b_fsco a); discriminate.
+Qed.
+
+Lemma x2_append_all_total : forall ss a hdr, HdrInv a hdr ->
+  b_num a + Z.of_nat (length ss) <= 65535 -> x2_append_all a hdr ss <> None.
+Proof.
+  induction ss as [|s ss IH]; intros a hdr HH Hcap; [discriminate|].
+  cbn [x2_append_all]. cbn [length] in Hcap. rewrite Nat2Z.inj_succ in Hcap.
+  assert (H0 : 0 <= b_num a) by (destruct HH as [_ [_ [_ [_ [_ H]]]]]; exact H).
+  destruct (x2_append a hdr (s_st s) (s_t s) (s_v s)) as [[[b a'] hdr']|] eqn:Happ.
+  - destruct (x2_append_hdr _ _ _ _ _ _ _ _ HH Happ) as [HH' [_ Hn1]].
+    specialize (IH a' hdr' HH' ltac:(lia)).
+    destruct (x2_append_all a' hdr' ss) as [[[? ?] ?]|]; [discriminate|contradiction].
+  - exfalso. eapply x2_append_total; [|exact Happ]. lia.
+Qed.
+
+(* ---- a fresh XOR2 chunk -------------------------------------------------------------------------- *)
+
+Lemma HdrInv_init : HdrInv x2app_init 0.
+Proof. unfold HdrInv, hdr_of, x2app_init. cbn. repeat split; try lia. Qed.
+
+Lemma x2it_init_hdr aF : 0 <= b_fsco aF <= 127 ->
+  j_fsk (x2it_init (hdr_of aF)) = b_fsk aF /\ j_fsco (x2it_init (hdr_of aF)) = b_fsco aF.
+Proof.
+  intros H. unfold x2it_init, hdr_of. cbn [j_fsk j_fsco]. destruct (b_fsk aF).
+  - split; [apply Z.leb_le; lia|]. Z.div_mod_to_equations. lia.
+  - split; [apply Z.leb_gt; lia|]. Z.div_mod_to_equations. lia.
+Qed.
+
+Lemma Inv2_init aF : 0 <= b_fsco aF <= 127 -> Inv2 aF x2app_init (x2it_init (hdr_of aF)).
+Proof.
+  intros H. destruct (x2it_init_hdr aF H) as [E1 E2].
+  unfold Inv2. rewrite E1, E2. unfold x2it_init, x2app_init, wf_it2, wf_window, win_rel, is_u64, int64, minInt64, maxInt64.
+  cbn. repeat split; try lia.
+Qed.
+
+Lemma xor2_decode_bytes num hdr bs :
+  0 <= num <= 65535 ->
+  xor2_decode (chunk_bytes num [hdr] bs) =
+  let '(l, r) := x2_iter (Z.to_nat num) (x2it_init hdr) (unpack_bytes (pack_bits bs)) in
+  DOk l (match r with None => true | Some _ => false end).
+Proof.
+  intros H. unfold chunk_bytes, xor2_decode. cbn [app].
+  replace (num / 256 * 256 + num mod 256) with num by (Z.div_mod_to_equations; lia). reflexivity.
+Qed.
+
+(* any sample sequence (start timestamps included) appended to a fresh XOR2 chunk is returned
+   exactly by iterating the chunk's bytes *)
+Lemma xor2_roundtrip k ss :
+  Forall wf_sample2 ss -> Z.of_nat (length ss) <= 65535 ->
+  exists num hdr bs, xor2_encode [(k, ss)] = EOk num [hdr] bs /\
+                     xor2_decode (chunk_bytes num [hdr] bs) = DOk ss false.
+Proof.
+  intros Hwf Hcap. unfold xor2_encode. cbn [x2_run x2_resume].
+  pose proof (x2_append_all_total ss x2app_init 0 HdrInv_init ltac:(cbn; lia)) as Htot.
+  destruct (x2_append_all x2app_init 0 ss) as [[[b aF] hdrF]|] eqn:Hall; [|contradiction].
+  destruct (x2_append_all_hdr _ _ _ _ _ _ HdrInv_init Hall) as [HHF [HF Hn]].
+  assert (Hfs : 0 <= b_fsco aF <= 127) by (destruct HHF as [_ [Hf _]]; exact Hf).
+  assert (HhF : hdrF = hdr_of aF) by (destruct HHF as [Hh _]; exact Hh).
+  destruct (x2_run_rt ss x2app_init 0 (x2it_init (hdr_of aF)) b aF hdrF aF (Inv2_init aF Hfs) HdrInv_init Hwf Hall (Fut_refl aF))
+    as [it2 [Hit _]].
+  exists (0 + Z.of_nat (length ss)), hdrF, ([] ++ b). split; [reflexivity|].
+  rewrite xor2_decode_bytes by lia. cbn [app Z.add].
+  destruct (unpack_pack b) as [pad [Hp _]]. rewrite Hp, HhF.
+  replace (Z.to_nat (0 + Z.of_nat (length ss))) with (length ss) by lia.
+  rewrite Nat2Z.id, Hit. reflexivity.
+Qed.
+
+Lemma x2_capacity a hdr st t v : b_num a = 65535 -> x2_append a hdr st t v = None.
+Proof. intros H. unfold x2_append. rewrite H. reflexivity. Qed.
+
+(* ---- XOR2 chunk histories: appender re-obtained from the object or from the bytes ------------------ *)
+
+Lemma x2_iter_app : forall n m it bs,
+  x2_iter (n + m) it bs =
+  match x2_iter n it bs with
+  | (l1, Some (it', bs')) => let '(l2, r2) := x2_iter m it' bs' in (l1 ++ l2, r2)
+  | (l1, None) => (l1, None)
+  end.
+Proof.
+  induction n as [|n IH]; intros m it bs.
+  - cbn. destruct (x2_iter m it bs). reflexivity.
+  - cbn [Nat.add x2_iter]. destruct (x2_next it bs) as [[it' bs']|]; [|reflexivity].
+    rewrite IH. destruct (x2_iter n it' bs') as [l1 [[it'' bs'']|]].
+    + destruct (x2_iter m it'' bs''). reflexivity.
+    + reflexivity.
+Qed.
+
+(* the chunk (hdr, bs) holds exactly xs; [a] is an appender state for it.  Whatever the header
+   becomes later (aEnd), an iterator created with that later header reads xs from bs and ends in
+   a state related to [a]. *)
+Definition chunk_ok2 (a : x2app) (hdr : Z) (bs : bits) (xs : list sample) : Prop :=
+  HdrInv a hdr /\ b_num a = Z.of_nat (length xs) /\ (bs = [] -> xs = [] /\ a = x2app_init) /\
+  forall aEnd, Fut a aEnd -> 0 <= b_fsco aEnd <= 127 ->
+    exists it, Inv2 aEnd a it /\
+      forall r, x2_iter (length xs) (x2it_init (hdr_of aEnd)) (bs ++ r) = (xs, Some (it, r)).
+
+Lemma chunk_ok2_empty : chunk_ok2 x2app_init 0 [] [].
+Proof.
+  split; [exact HdrInv_init|]. split; [reflexivity|]. split; [auto|].
+  intros aEnd _ Hf. exists (x2it_init (hdr_of aEnd)). split; [apply Inv2_init; exact Hf|]. intros r. reflexivity.
+Qed.
+
+Lemma resume_ok2 a hdr bs xs : chunk_ok2 a hdr bs xs ->
+  exists a', x2_resume (Z.of_nat (length xs)) hdr bs = Some a' /\ chunk_ok2 a' hdr bs xs.
+Proof.
+  intros Hok. destruct Hok as [HH [Hn [Hemp Hall]]].
+  destruct bs as [|b0 bs].
+  { destruct (Hemp eq_refl) as [Hx Ha]. subst xs a. exists x2app_init. split; [reflexivity|].
+    split; [exact HH|]. split; [exact Hn|]. split; [auto|exact Hall]. }
+  assert (Hf : 0 <= b_fsco a <= 127) by (destruct HH as [_ [Hf _]]; exact Hf).
+  assert (Hh : hdr = hdr_of a) by (destruct HH as [Hh _]; exact Hh).
+  destruct (Hall a (Fut_refl a) Hf) as [it0 [HI0 Hit0]].
+  unfold x2_resume. rewrite Nat2Z.id, Hh.
+  specialize (Hit0 []) as Hit00. rewrite app_nil_r in Hit00. rewrite Hit00. cbn [snd].
+  eexists. split; [reflexivity|].
+  destruct HI0 as [I1 [I2 [I3 [I4 [I5 [I6 [I7 [[W1 [W2 [W3 [W4 [W5 [W6 [W7 W8]]]]]]] [I9 [I10 [I11 [I12 I13]]]]]]]]]]]].
+  split; [|split; [|split; [intros Hc; discriminate|]]].
+  - (* HdrInv only looks at num / fsk / fsco *)
+    destruct HH as [H1 [H2 [H3 [H4 [H5 H6]]]]]. unfold HdrInv, hdr_of in *. cbn. rewrite I9, I10, <- Hn. repeat split; try assumption; try lia.
+  - cbn. reflexivity.
+  - intros aEnd HF HfE.
+    assert (HF' : Fut a aEnd).
+    { destruct HF as [F1 [F2 [F3 F4]]]. cbn in F1, F2, F3, F4. rewrite I9, I10, <- Hn in *. unfold Fut. repeat split; assumption. }
+    destruct (Hall aEnd HF' HfE) as [it [HI Hit]]. exists it. split; [|exact Hit].
+    destruct HI as [J1 [J2 [J3 [J4 [J5 [J6 [J7 [JW [J9 [J10 [J11 [J12 J13]]]]]]]]]]]].
+    unfold Inv2. cbn. rewrite <- Hn.
+    split; [exact J1|]. split; [congruence|]. split; [intros Hge; rewrite <- (I3 Hge); apply J3; exact Hge|].
+    split; [congruence|]. split; [congruence|]. split; [congruence|].
+    split.
+    { (* both iterators hold the window determined by the appender *)
+      right. destruct (Z.eq_dec (b_lead a) 255) as [E|NE].
+      - destruct (I13 E) as [A B]. destruct (J13 E) as [C D]. lia.
+      - destruct I7 as [X|[X Y]]; [contradiction|]. destruct J7 as [X'|[X' Y']]; [contradiction|]. lia. }
+    split; [exact JW|]. split; [exact J9|]. split; [exact J10|]. split; [exact J11|]. split; [exact J12|].
+    intros Hc. lia.
+Qed.
+
+Lemma x2_run_ok : forall segs a hdr bs xs,
+  chunk_ok2 a hdr bs xs -> Forall wf_sample2 (flat_map snd segs) ->
+  Z.of_nat (length xs) + Z.of_nat (length (flat_map snd segs)) <= 65535 ->
+  exists a' hdr' bs', x2_run segs (Z.of_nat (length xs)) hdr bs
+                        = EOk (Z.of_nat (length (xs ++ flat_map snd segs))) [hdr'] bs' /\
+                      chunk_ok2 a' hdr' bs' (xs ++ flat_map snd segs).
+Proof.
+  induction segs as [|[k ss] segs IH]; intros a hdr bs xs Hok Hwf Hcap.
+  - exists a, hdr, bs. cbn. rewrite app_nil_r. split; [reflexivity|exact Hok].
+  - cbn [flat_map snd] in Hwf, Hcap. apply Forall_app in Hwf. destruct Hwf as [Hwf1 Hwf2].
+    rewrite app_length, Nat2Z.inj_add in Hcap.
+    cbn [x2_run].
+    destruct (resume_ok2 a hdr bs xs Hok) as [ar [Hres Hokr]]. rewrite Hres.
+    destruct Hokr as [HH [Hn [Hemp Hall]]].
+    pose proof (x2_append_all_total ss ar hdr HH ltac:(lia)) as Htot.
+    destruct (x2_append_all ar hdr ss) as [[[b aF] hdrF]|] eqn:Happ; [|contradiction].
+    destruct (x2_append_all_hdr _ _ _ _ _ _ HH Happ) as [HHF [HF HnF]].
+    assert (Hok2 : chunk_ok2 aF hdrF (bs ++ b) (xs ++ ss)).
+    { split; [exact HHF|]. split; [rewrite app_length, Nat2Z.inj_add; lia|]. split.
+      - intros Hc. apply app_eq_nil in Hc. destruct Hc as [Hc1 Hc2].
+        destruct (Hemp Hc1) as [Hx Ha]. subst xs ar.
+        destruct ss as [|s ss'].
+        + cbn in Happ. injection Happ as E1 E2 E3. subst. auto.
+        + exfalso. assert (HfF : 0 <= b_fsco aF <= 127) by (destruct HHF as [_ [Hf _]]; exact Hf).
+          destruct (x2_run_rt (s :: ss') x2app_init hdr (x2it_init (hdr_of aF)) b aF hdrF aF
+                      (Inv2_init aF HfF) HH Hwf1 Happ (Fut_refl aF)) as [_ [_ [_ Hne]]].
+          apply Hne; [discriminate|exact Hc2].
+      - intros aEnd HFE HfE.
+        assert (HFr : Fut ar aEnd).
+        { eapply Fut_trans; [exact HF|exact HFE|]. destruct HHF as [_ [Hf _]]. lia. }
+        destruct (Hall aEnd HFr HfE) as [it [HI Hit]].
+        destruct (x2_run_rt ss ar hdr it b aF hdrF aEnd HI HH Hwf1 Happ HFE) as [it2 [Hit2 [HI2 _]]].
+        exists it2. split; [exact HI2|].
+        intros r. rewrite app_length, x2_iter_app, <- app_assoc, Hit, Hit2. reflexivity. }
+    destruct (IH aF hdrF (bs ++ b) (xs ++ ss) Hok2 Hwf2 ltac:(rewrite app_length, Nat2Z.inj_add; lia))
+      as [a' [hdr' [bs' [Hrun Hok']]]].
+    exists a', hdr', bs'. cbn [flat_map snd]. rewrite app_assoc.
+    rewrite app_length, Nat2Z.inj_add in Hrun. split; [exact Hrun|exact Hok'].
+Qed.
+
+Lemma xor2_decode_ok a hdr bs xs : chunk_ok2 a hdr bs xs -> Z.of_nat (length xs) <= 65535 ->
+  xor2_decode (chunk_bytes (Z.of_nat (length xs)) [hdr] bs) = DOk xs false.
+Proof.
+  intros [HH [Hn [_ Hall]]] Hcap.
+  assert (Hf : 0 <= b_fsco a <= 127) by (destruct HH as [_ [Hf _]]; exact Hf).
+  assert (Hh : hdr = hdr_of a) by (destruct HH as [Hh _]; exact Hh).
+  destruct (Hall a (Fut_refl a) Hf) as [it [_ Hit]].
+  rewrite xor2_decode_bytes by lia. destruct (unpack_pack bs) as [pad [Hp _]].
+  rewrite Hp, Nat2Z.id, Hh, Hit. reflexivity.
+Qed.
+
+(* XOR2 histories with the appender re-obtained any number of times, from the same object or
+   from the chunk's bytes (both restore the write position): every (st, t, v) comes back exactly *)
+Lemma xor2_history_roundtrip segs :
+  Forall wf_sample2 (flat_map snd segs) -> Z.of_nat (length (flat_map snd segs)) <= 65535 ->
+  exists num hdr bs, xor2_encode segs = EOk num [hdr] bs /\
+                     xor2_decode (chunk_bytes num [hdr] bs) = DOk (flat_map snd segs) false.
+Proof.
+  intros Hwf Hcap. unfold xor2_encode.
+  destruct (x2_run_ok segs x2app_init 0 [] [] chunk_ok2_empty Hwf ltac:(cbn; lia)) as [a' [hdr' [bs' [Hrun Hok]]]].
+  cbn [app length Z.of_nat] in Hrun, Hok.
+  eexists. exists hdr', bs'. split; [exact Hrun|].
+  apply (xor2_decode_ok a' hdr' bs' _ Hok Hcap).
+Qed.
+
+(* non-vacuity witness: stale NaN first, start timestamps appearing late, a reload from bytes *)
+Definition example2_segs : list (reopen * list sample) :=
+  [(ReObj, [mkS 0 1000 9218868437227405314; mkS 0 2000 4609434218613702656; mkS 990 3000 4609434218613702656]);
+   (ReBytes, [mkS 990 4007 9218868437227405314; mkS (-5) (-9223372036854775808) 18446744073709551615;
+              mkS 9223372036854775807 5 0])].
+
+Lemma example2_ok :
+  Forall wf_sample2 (flat_map snd example2_segs) /\
+  Z.of_nat (length (flat_map snd example2_segs)) <= 65535 /\
+  match xor2_encode example2_segs with
+  | EOk num [hdr] bs => num = 6 /\ hdr = 2 /\
+                        xor2_decode (chunk_bytes num [hdr] bs) = DOk (flat_map snd example2_segs) false
+  | _ => False
+  end.
+Proof.
+  split.
+  - repeat constructor; cbn; unfold int64, minInt64, maxInt64, is_u64; lia.
+  - split; [cbn; lia|]. vm_compute. repeat split.
 Qed.
